@@ -77,6 +77,11 @@ def gen(rng, tier):
     cases += routes.add_routes(cases, rng, 80, tier)
     # the deep valid paths (13..1000 components) through --hd-path / HD_PATH too: accepted means a key comes out
     cases += routes.add_routes([c for c in cases if "deep" in c.tags and "valid" in c.tags], rng, 10 ** 6, "quick")
+    # one character of valid paths replaced by a sign / separator / point / x / NUL / blank at every position
+    from vlib.core import substitute
+    for t in ("m/44'/60'/0'/0/17", "m/0", "m/2147483647'/1"):
+        for v in substitute(t, 0, "+-_.,xX~\x00 '/mM"):
+            add(v, "substituted")
     # every boundary account index through the command line too (flag or environment)
     bset = set(BOUNDS) | {7, 2 ** 31 - 1, 2 ** 31 - 2}
     cases += routes.add_routes([c for c in cases if c.line.startswith("path.for_index ") and int(c.line.split(" ")[1]) in bset], rng, 10 ** 6, "quick")
